@@ -5,6 +5,7 @@
 #   ERR    the overlay did not load                  SKIP   the control's locator does not apply to this tree
 export GOFLAGS=-mod=mod GOPROXY=off; unset GOWORK
 K=${1:-/verif/bin/ketosa}
+export KETOSA_SYMBOLS=${KETOSA_SYMBOLS:-/verif/symbols.json}
 T=$(mktemp -d /tmp/selftest-XXXXXX)
 for p in $($K -list); do $K -property $p -control list; done > $T/list.txt 2>/dev/null
 for p in $($K -list); do for k in commute ifelse rename parens swtoif derange elseafter renamefn renamety renamefld renamevar renameexp adddefer addcall revdecl revcases tmpreturn; do echo "$p metamorph-$k negative -"; done; done >> $T/list.txt
